@@ -8,7 +8,7 @@ closing transport; duplicates across replicas after re-injection.
 """
 import ast
 
-from ..model import dotted, unparse, norm, walk_no_nested
+from ..model import dotted, unparse, norm, walk_no_nested, loop_exits, loop_of
 from ..rulelib import Ctx, nodes_calling, reaching_defs, value_assigned, short, is_increment_of
 from ..clientmodel import ClientModel
 
@@ -79,7 +79,7 @@ def rule_reinject(check, cx, cm, rule):
         gen = [c for c in ast.walk(n.owner) if isinstance(c, ast.Call) and (dotted(c.func) or '').endswith('metricGenerated')]
         tgt = {x.id for x in ast.walk(n.owner.target) if isinstance(x, ast.Name)}
         passes = any(len(c.args) == 2 and all(isinstance(a, ast.Name) and a.id in tgt for a in c.args) for c in gen)
-        early = [x for x in ast.walk(n.owner) if isinstance(x, (ast.Break, ast.Return, ast.Continue))]
+        early = loop_exits(n.owner, (ast.Break, ast.Return, ast.Continue))
         if snap_ok and passes and not early:
           good_loops.append(n)
     # the clear must be reached only through the *exhausted* loop (its F edge)
